@@ -219,7 +219,7 @@ pub fn gen_project(rng: &mut Rng, o: &ProjectOpts) -> Project {
         dirs.push("../shared".into());
         dirs.push("../shared/frag".into());
     }
-    let schema_dir = *r_lay.pick(&["schema", "graphql/schema", "src-schema"]);
+    let schema_dir = *r_lay.pick(&["schema", "graphql/schema", "src-schema", "defs/a", "defs/a/b"]);
     let schema_names = ["base", "types", "extra"];
     let schema_paths: Vec<String> = (0..schema.n_files).map(|i| format!("{schema_dir}/{}.graphql", schema_names[i])).collect();
 
@@ -236,6 +236,7 @@ pub fn gen_project(rng: &mut Rng, o: &ProjectOpts) -> Project {
             plain: o.schema.plain,
             closed_imports: o.closed_imports,
             cover_fragments: o.cover_fragments,
+            name_collisions: false,
             dirs: dirs.clone(),
         },
     );
@@ -282,7 +283,8 @@ pub fn gen_project(rng: &mut Rng, o: &ProjectOpts) -> Project {
     if r_cfg.chance(3, 4) {
         g.insert("mode".into(), json!(mode));
     }
-    let out_dir = *r_cfg.pick(&["generated", "src/generated", "out/deep/er", ".", "../gen-out", "src"]);
+    // (directories that share a component name with the inputs at the same depth: `out/a` vs `src/a`)
+    let out_dir = *r_cfg.pick(&["generated", "src/generated", "out/deep/er", ".", "../gen-out", "src", "out/a", "gen/a/b", "out/c"]);
     let out_dir = if out_dir == "../gen-out" && depth == 0 { "gen-out" } else { out_dir };
     let sch_name = *r_cfg.pick(&[
         "schema.d.ts",
